@@ -99,5 +99,9 @@ func PemToPrivateKey(bytes []byte) (signer crypto.Signer, err error) {
 			signer = k
 		}
 	}
+	if err == nil && signer == nil {
+		// unsupported PEM block type or PKCS#8 key type (e.g. X25519)
+		err = ErrWrongPrivateKey
+	}
 	return
 }
